@@ -61,7 +61,7 @@ class P(Prop):
     ID = "C20"
     THEOREMS = ["C20_json_array_total", "C20_typed_readers_total", "C20_json_object_fuel", "C20_json_array_fuel", "C20_request_total", "C20_response_total", "C20_range_multipart_total",
                 "C20_multipart_total", "C20_range_total", "C20_content_disposition_first_piece", "C20_url_pattern_total", "C20_url_match_total",
-                "C20_url_extract_total", "C20_url_build_total", "C20_panic_sites_vetted", "C20_no_recursive_parser"]
+                "C20_url_extract_total", "C20_url_build_total", "C20_panic_sites_vetted", "C20_no_legacy_twin_called", "C20_no_recursive_parser"]
     COQ_TARGETS = ["theories/Props/C20.vo", "theories/Extract.vo"]
     N_QUICK = 6000
     N_THOROUGH = 150000
